@@ -783,6 +783,39 @@ RVARIANTS = [('display mL / mmol', {'volume_display_unit': 'mL', 'moles_display_
              ('storage uL / mmol', {'moles_storage_unit': 'mmol'})]
 
 
+def density_variant(chk, gens_queries, ledger_oracle, tag, limit=8):
+    """recipes under default densities inf (solids and enzymes occupy no volume), substances made by the library's factories: bake
+    against the eager execution of the same steps performed in the same process under that configuration"""
+    import histcheck, copy, types
+    overrides = {'default_solid_density': float('inf'), 'default_enzyme_density': float('inf')}
+    sel = gens_queries[:limit]
+    progs = [copy.deepcopy(rg.prog([])) for rg, qs in sel]
+    for p in progs:
+        for sd in p['subs']:
+            if sd['kind'] in ('Solid', 'Enzyme'):
+                sd['dens'] = 'inf'
+    try:
+        _, res = histcheck.run_job([], progs, overrides, tag + '_d', factory_density=True, ledger=True)
+    except Exception as e:  # noqa
+        chk.violation(f"recipes could not be run under default densities inf: {e}", {'relation': 'configuration variant densities inf'}, found_input=False)
+        return 0
+    n = 0
+    for prog, (out, qres, led) in zip(progs, res):
+        n += len(prog['steps'])
+        rg = types.SimpleNamespace(failed=tuple(led['failed']) if led['failed'] else None, initial=led['initial'],
+                                   eager=types.SimpleNamespace(history=led['history']))
+        try:
+            fails = ledger_oracle(prog, rg, out)
+        except Exception:  # noqa
+            import traceback
+            fails = ['oracle crashed under a configuration variant: ' + traceback.format_exc()[-400:]]
+        if fails:
+            chk.violation("under configuration 'solids and enzymes without volume (default densities inf)': " + fails[0],
+                          {'recipe': prog, 'configuration': {k: str(v) for k, v in overrides.items()}, 'factory_density': True, 'failures': fails[:5]})
+            break
+    return n
+
+
 def variants(chk, gens_queries, oracle, tag, limit=8):
     """the first recipes (and their queries) again, in a separate process, under configurations that differ in display or storage
     units: the property oracle only, against the eager ledger built at generation (which is in uL / umol whatever the variant)"""
